@@ -132,3 +132,40 @@ func VH_C07_AccountPaths_sym() {
 		}
 	}
 }
+
+// Requests that name the file root itself (no path, empty or one-byte name): every path the server reads, stats,
+// writes, renames or removes - including the fork side files derived from the name - stays inside the root.
+func VH_C07_RequestsNamingTheRoot_sym() {
+	vUnroll(200)
+	e := c07Env()
+	vAssume(e.fs.exists)
+	name := vBytesEach("name", 1)
+	nameField := f(hotline.FieldFileName, name)
+	switch vChoice("op", 5) {
+	case 0:
+		t := hotline.NewTransaction(hotline.TranSetFileInfo, e.cc.ID, nameField, f(hotline.FieldFileComment, []byte("c")))
+		HandleSetFileInfo(e.cc, &t)
+	case 1:
+		t := hotline.NewTransaction(hotline.TranDeleteFile, e.cc.ID, nameField)
+		HandleDeleteFile(e.cc, &t)
+	case 2:
+		t := hotline.NewTransaction(hotline.TranGetFileInfo, e.cc.ID, nameField)
+		HandleGetFileInfo(e.cc, &t)
+	case 3:
+		t := hotline.NewTransaction(hotline.TranDownloadFile, e.cc.ID, nameField)
+		HandleDownloadFile(e.cc, &t)
+	default:
+		t := hotline.NewTransaction(hotline.TranMoveFile, e.cc.ID, nameField, f(hotline.FieldFileNewPath, vPathField("dest")))
+		HandleMoveFile(e.cc, &t)
+	}
+	for _, op := range vfsLog {
+		vAssert("root_request_written_path_in_root", c07Within("/r", op.name))
+	}
+	all := append(append(append(append([]string(nil), e.fs.removed...), e.fs.renamed...), e.fs.renameTo...), e.fs.written...)
+	for _, p := range all {
+		vAssert("root_request_changed_path_in_root", c07Within("/r", p))
+	}
+	for _, p := range e.fs.stats {
+		vAssert("root_request_read_path_in_root", c07Within("/r", p))
+	}
+}
